@@ -64,6 +64,33 @@ class SameNamedTransform:
             out.append(Mismatch(where + ".dask.lazy", type(d).__name__, "dask Array"))
         elif not np.allclose(d.compute(), b):
             out.append(Mismatch(where + ".dask.values", "differs", "scipy.fft." + self.name))
+        # C20 "values, shape, dtype": every input dtype, both backends; the Dask result must declare (lazily) and
+        # deliver the reference dtype
+        real_in = self.name in ("rfft", "rfft2", "rfftn", "ihfft")
+        for code in ("?", "i1", "u1", "i2", "u2", "i4", "i8", "f2", "f4", "f8", "c8", "c16"):
+            if code.startswith("c") and real_in:
+                continue
+            y = rng.integers(0, 2 if code == "?" else 50, size=(2, 3, 6)).astype(code)
+            kw = {"axes": (1, 2)} if self.name.endswith("n") else {}     # the chunked axis 0 is never transformed
+            if code.startswith("c"):
+                y = y + 1j * rng.integers(0, 50, size=y.shape).astype(code)
+            try:
+                b = ref(y, **kw)
+            except Exception:
+                continue
+            try:
+                a = got(y, **kw)
+                d = got(da.from_array(y, chunks=(1, -1, -1)), **kw)
+                dc = d.compute()
+            except Exception as e:
+                out.append(Mismatch(f"{where}.dtype-sweep[{np.dtype(code).name}]", f"{type(e).__name__}: {e}"[:120], "scipy.fft." + self.name))
+                continue
+            if a.dtype != b.dtype or a.shape != b.shape or not np.array_equal(a, b):
+                out.append(Mismatch(f"{where}.numpy.dtype-sweep[{np.dtype(code).name}]", f"{a.dtype}{a.shape}", f"{b.dtype}{b.shape} (scipy.fft.{self.name})"))
+            if d.dtype != b.dtype or d.shape != b.shape:
+                out.append(Mismatch(f"{where}.dask.declared[{np.dtype(code).name}]", f"{d.dtype}{d.shape}", f"{b.dtype}{b.shape} (scipy.fft.{self.name})"))
+            elif dc.dtype != b.dtype or dc.shape != b.shape or not np.allclose(dc, b):
+                out.append(Mismatch(f"{where}.dask.computed[{np.dtype(code).name}]", f"{dc.dtype}{dc.shape}", f"{b.dtype}{b.shape} (scipy.fft.{self.name})"))
 
 
 def spec_fft_getattr(c, name):
